@@ -124,7 +124,8 @@ func (s *LocalBackend) Metrics() []prometheus.Collector {
 }
 
 func compareFile(f *os.File, data []byte) error {
-	b := make([]byte, min(len(data), 16384))
+	// The buffer must not be empty, or Read would return (0, nil) forever.
+	b := make([]byte, max(min(len(data), 16384), 1))
 	for {
 		n, err := f.Read(b)
 		if err != nil && err != io.EOF {
